@@ -1,2 +1,16 @@
 import PeptVerif.Props.C17
 #print axioms Score.sweep_eq_windowTW
+#print axioms Score.windowTW_eq_bruteforce
+#print axioms Score.sweep_correct
+#print axioms Score.th_monotone
+#print axioms Score.ppm_monotone
+#print axioms Score.ppm_not_monotone_above_million
+#print axioms Score.getMatchedIndices_correct_th
+#print axioms Score.getMatchedIndices_correct_ppm
+#print axioms Score.none_iff_window_empty
+#print axioms Score.match_none_iff
+#print axioms Score.all_mode_eq_window
+#print axioms Score.closest_mem_argmin
+#print axioms Score.largest_mem_argmax
+#print axioms Score.intensity_fraction_eq
+#print axioms Score.intensity_fraction_unit_interval
